@@ -718,7 +718,7 @@ func init() {
 		ID:        "C01",
 		Level:     "exploration",
 		NeedsTerm: true,
-		Rule: "PRNG-determined sessions: mode x inputrc variable settings x history x completer x terminal size x key scripts drawn from every bound sequence of every keymap, words, control bytes, invalid UTF-8, CSI fragments, digit arguments, argument-reading commands; one case in three binds 1-6 registered commands (those without a default binding, or any) to probe keys, with small, zero and negative arguments; one in four sets right / tooltip / secondary / transient prompts and types lines reaching the margin; one in six has 2-4 history sources, the user cycling through them, and a second call after the application removed the first / last / middle / all of them; completers return plain, described, merged and message-only results, with case-folding characters typed in front of Tab under completion-ignore-case; exit by RET/C-c/C-d or by EOF/EIO injected after a random prefix. " +
+		Rule: "one case in four: every registered command in turn, bound by name to a probe key and run with a hostile numeric argument (-9, -2, 0, 99, -, -3, 2, 9, -99, none in turn) on a shaped buffer with the history [one, two words]; otherwise PRNG-determined sessions: mode x inputrc variable settings x history x completer x terminal size x key scripts drawn from every bound sequence of every keymap, words, control bytes, invalid UTF-8, CSI fragments, digit arguments, argument-reading commands; one case in three binds 1-6 registered commands (those without a default binding, or any) to probe keys, with small, zero and negative arguments; one in four sets right / tooltip / secondary / transient prompts and types lines reaching the margin; one in six has 2-4 history sources, the user cycling through them, and a second call after the application removed the first / last / middle / all of them; completers return plain, described, merged and message-only results, with case-folding characters typed in front of Tab under completion-ignore-case; exit by RET/C-c/C-d or by EOF/EIO injected after a random prefix. " +
 			"distinct non-trivial = distinct (command executed, main/local keymap, buffer-shape class, wait kind) tuples observed at input waits",
 		Assumptions: []string{"numeric arguments <= 9999 (at most 4 digit characters are typed per script)", "scripts <= 45 tokens", "hermetic pty + in-process VT emulator answering cursor queries immediately", "a call that is parked waiting for input after the exit ladder counts as 'blocked waiting', not as a violation"},
 		N: func(tier string) int {
